@@ -63,7 +63,7 @@ def run(tier, replay=None):
                                 {"clause": what, "call": e.get("call"), "kind": e.get("kind")}, replay=path)
     need = ["CheckTx/decode", "DeliverTx/decode", "DeliverTx/lookup", "DeliverTx/signature", "DeliverTx/common1", "DeliverTx/controller",
             "DeliverTx/executed", "Query/vm_call", "Query/account",
-            "Sweep/opcode-init", "Sweep/opcode-call", "Sweep/opcode-transfer"]
+            "Sweep/opcode-init", "Sweep/opcode-call", "Sweep/opcode-transfer", "Sweep/precompile"]
     missing = [k for k in need if not by_layer.get(k)]
     if missing and not v.violations:
         raise vlib.MachineryError("hostile driver never reached %s" % missing)
